@@ -770,6 +770,11 @@ func (s *TxStore) Rollback(tx mwdb.DBTransaction, height uint64) error {
 							})
 						continue
 					}
+					if _, ok := allMined[ma.Account()]; !ok {
+						// wallet is being removed: its unspents, addresses,
+						// histories and balance are already gone
+						continue
+					}
 
 					unspentKey, credKey, err := existsUnspent(nsUnspent, ma.Account(), &op)
 					if err != nil {
@@ -905,6 +910,10 @@ func (s *TxStore) Rollback(tx mwdb.DBTransaction, height uint64) error {
 					}
 					return err
 				}
+				if _, ok := allMined[ma.Account()]; !ok {
+					// wallet is being removed (see above)
+					continue
+				}
 
 				unspentVal, err := fetchNsUnspentValueFromRawCredit(credKey)
 				if err != nil {
@@ -984,6 +993,10 @@ func (s *TxStore) Rollback(tx mwdb.DBTransaction, height uint64) error {
 							"height":     curHeight,
 							"err":        err,
 						})
+					continue
+				}
+				if _, ok := allMined[ma.Account()]; !ok {
+					// wallet is being removed (see above)
 					continue
 				}
 
@@ -1199,6 +1212,7 @@ func (s *TxStore) RemoveRelevantTx(tx mwdb.DBTransaction, addrmgr *keystore.Addr
 	nsUnmined := tx.FetchBucket(s.bucketMeta.nsUnmined)
 	nsBlocks := tx.FetchBucket(s.bucketMeta.nsBlocks)
 	nsTxRecords := tx.FetchBucket(s.bucketMeta.nsTxRecords)
+	nsDebits := tx.FetchBucket(s.bucketMeta.nsDebits)
 
 	// unmined tx
 	unminedHashes, err := s.utxoStore.removeRelevantUnminedCredit(tx, scriptHashSet)
@@ -1278,6 +1292,18 @@ func (s *TxStore) RemoveRelevantTx(tx mwdb.DBTransaction, addrmgr *keystore.Addr
 		removable, err := s.removableTxForRemoveWallet(msgtx, scriptHashSet)
 		if err != nil {
 			return nil, false, err
+		}
+		if removable {
+			// The removed wallet's own debits are gone by now; a debit that
+			// is left belongs to another wallet whose coin this transaction
+			// spends, and rolling that spend back needs the record.
+			otherDebits, err := nsDebits.GetByPrefix(txHash[:])
+			if err != nil {
+				return nil, false, err
+			}
+			if len(otherDebits) > 0 {
+				removable = false
+			}
 		}
 		if removable {
 			err = nsTxRecords.Delete(item.Key)
